@@ -97,6 +97,9 @@ def run(model: Model, rep: Report) -> None:
     seq = ["".join(t.split()) for _, t in ys]
     ok = len(seq) == 3 and seq[0].startswith(f"yield({lv},title,dest,action,se)") and seq[1] == f"yieldfromsearch({e}['First'],{lv}+1)" and seq[2] == f"yieldfromsearch({e}['Next'],{lv})"
     r3.check(ok, site(se), se.qualname, "yield (level, title, ...); then search(First, level + 1); then search(Next, level)", why=f"yield order {seq}")
+    go_s = model.func(D + "PDFDocument.get_outlines.search")
+    tt = ["".join(unparse(n.test).split()) for n in walk_no_nested(go_s.node) if isinstance(n, ast.If) and "Title" in unparse(n.test)]
+    r3.check(tt == ["'Title'inentry"], site(go_s), go_s.qualname, "an item is reported when it has a /Title entry (whatever its value, also the empty string)", why=f"title test(s) {tt}: a truth test drops items whose title is the empty string")
     go = model.func(D + "PDFDocument.get_outlines")
     r3.check("return search(self.catalog['Outlines'], 0)" in unparse(go.node) and "raise PDFNoOutlines" in unparse(go.node), site(go), go.qualname, "traversal starts at /Outlines with level 0; no /Outlines -> PDFNoOutlines", why="changed")
     # ---------------------------------------------------------------- R4
